@@ -11,6 +11,7 @@ use crate::{
     config::Config,
     connection::ConnectionInner,
     error::ConnectionError,
+    proto::varint::VarInt,
     quic::{self},
     shared_state::SharedState,
 };
@@ -84,7 +85,9 @@ impl Builder {
     ///
     /// [header size constraints]: https://www.rfc-editor.org/rfc/rfc9114.html#name-header-size-constraints
     pub fn max_field_section_size(&mut self, value: u64) -> &mut Self {
-        self.config.settings.max_field_section_size = value;
+        // SETTINGS values travel as QUIC varints: a limit above 2^62 - 1 cannot be announced
+        // (and is indistinguishable from "unlimited"), so it is clamped to the largest one that can.
+        self.config.settings.max_field_section_size = value.min(VarInt::MAX.into_inner());
         self
     }
 
